@@ -1,13 +1,14 @@
 #!/bin/bash
-# usage: seedcheck.sh <patch.diff> <prop>...   -- apply a seeded change to /repo, run the quick checks, undo.
+# usage: seedcheck.sh <patch.diff> <prop>...   -- apply a seeded change to a scratch worktree of /repo's HEAD, run the quick checks there, undo.
 set -u
 P=$1; shift
-cd /repo || exit 9
-if ! git diff --quiet; then echo "/repo dirty"; exit 9; fi
+WT=${VERIF_SCRATCH_WT:-/tmp/wt2}
+cd $WT || exit 9
+git checkout -q --detach $(git -C /repo rev-parse HEAD) && git checkout -q -- . || exit 9
 git apply "$P" || { echo "PATCH DOES NOT APPLY"; exit 4; }
 for prop in "$@"; do
-  out=$(cd /verif && VERIF_EVIDENCE=/tmp/vx-seed-evidence ./check $prop quick 2>&1); rc=$?
+  out=$(cd /verif && VERIF_REPO=$WT VERIF_BUILD=/tmp/vx-seed-build VERIF_EVIDENCE=/tmp/vx-seed-evidence ./check $prop quick 2>&1); rc=$?
   echo "$out" | grep -E "^VIOLATION|^UNDECIDED|^property|^KNOWN" | cut -c1-400
   echo "rc($prop)=$rc"
 done
-git -C /repo checkout -- .
+git -C $WT checkout -q -- .
